@@ -867,6 +867,26 @@ Definition genv_heap (gd : guards) (g : genv) (extra : pystr -> list (pystr * py
     | None => if pystr_eqb o n_TypedPyDefaults then defaults_attr gd a else None
     end.
 
+(* What the translated functions ask a heap about the classes of an environment: any heap that answers like this
+   will do (the heap [genv_heap] does: [genv_env_view]; so does the heap StructMeta.__new__ works in) *)
+Record env_view (hp : heap) (gd : guards) (g : genv) (extra : pystr -> list (pystr * pyval)) : Prop := {
+  ev_struct : forall c, obj_isinstance hp (ref c) (s2p "StructMeta") =
+                        Ok (match find_klass g c with Some k => k_is_struct k | None => false end);
+  ev_fieldmeta : forall c, obj_isinstance hp (ref c) (s2p "FieldMeta") = Ok false;
+  ev_subclass : forall c k r, find_klass g c = Some k -> obj_issubclass hp (ref c) (ref r) = Ok (str_in r (k_mro k));
+  ev_signature : forall b kb, find_klass g b = Some kb ->
+      dv_getattr hp (ref b) (s2p "__signature__") = Ok (v_sig (k_sig_req kb) (k_sig_opt kb) (k_sig_kwargs kb));
+  ev_class_dict : forall b kb, find_klass g b = Some kb ->
+      dv_getattr hp (ref b) (s2p "__dict__") = Ok (PDict (skeys (class_dict kb (extra b))));
+  ev_mro : forall b kb, find_klass g b = Some kb -> dv_getattr hp (ref b) (s2p "mro()") = Ok (PList (v_refs (k_mro kb)));
+  ev_addl_default : find_klass g n_TypedPyDefaults = None ->
+      dv_getattr hp (ref (s2p "TypedPyDefaults")) (s2p "additional_properties_default") = Ok (PBool (gd_additional_default gd));
+  ev_fields : forall x kx, find_klass g x = Some kx ->
+      dv_getattr_def hp (ref x) (s2p "_fields") (PList []) = Ok (v_names (map fst (k_own kx)));
+  ev_member : forall x kx n, find_klass g x = Some kx -> In n (map fst (k_own kx)) ->
+      pseudo_attr n = false -> str_in n special_class_attrs = false ->
+      dv_getattr_dyn hp (ref x) (PStr n) = Ok (ref (member_obj x n)) }.
+
 Section EnvHeap.
   Variable gd : guards.
   Variable g : genv.
@@ -932,22 +952,24 @@ Proof. reflexivity. Qed.
 
 (* _check_for_final_violations(clsobj.mro()) for a class whose MRO is name :: mro_tail: TypeError exactly when the
    model's [final_violation] holds, None otherwise -- for every environment and every MRO *)
-Theorem check_final_src so X gd g extra name mro_tail :
-  DefineSrc.check_for_final_violations so X (genv_heap gd g extra) (PList (v_refs (name :: mro_tail))) =
+Theorem check_final_gen so X hp gd g extra name mro_tail :
+  env_view hp gd g extra ->
+  DefineSrc.check_for_final_violations so X hp (PList (v_refs (name :: mro_tail))) =
   if final_violation g mro_tail then Raise TypeError else Ok PNone.
 Proof.
+  intro Hev.
   unfold DefineSrc.check_for_final_violations. cbv zeta.
   unfold py_unpack. cbn [v_refs map py_iter_items bind length Nat.leb firstn skipn app].
   rewrite deref_list. cbn [dv_iter bind]. fold (v_refs mro_tail).
   rewrite (foldM_check _ (fun c => strict_sub g c n_Final || strict_sub g c n_Immutable) TypeError).
   - unfold final_violation. destruct (existsb _ mro_tail); reflexivity.
   - intro c. cbn [bind]. rewrite globals_Final, globals_Immutable, globals_FieldMeta.
-    rewrite heap_isinstance_struct, heap_isinstance_fieldmeta. unfold strict_sub.
+    rewrite (ev_struct _ _ _ _ Hev), (ev_fieldmeta _ _ _ _ Hev). unfold strict_sub.
     cbn [py_and bind]. destruct (find_klass g c) as [k|] eqn:Hk.
     2:{ rewrite !andb_false_r. reflexivity. }
     destruct (k_is_struct k); cbn [andb].
     2:{ rewrite !andb_false_r. reflexivity. }
-    rewrite !(heap_issubclass gd g extra c k _ Hk), !ne_refs. cbn [bind py_and].
+    rewrite !(ev_subclass _ _ _ _ Hev c k _ Hk), !ne_refs. cbn [bind py_and].
     change (s2p "FinalStructure") with n_Final. change (s2p "ImmutableStructure") with n_Immutable.
     destruct (str_in n_Final (k_mro k)); cbn [bind deref py_truthy andb];
       destruct (pystr_eqb c n_Final); cbn [negb andb orb bind deref py_truthy];
@@ -1191,7 +1213,8 @@ Section BaseInfo.
   Variable g : genv.
   Variable extra : pystr -> list (pystr * pyval).
   Variable so : set_order.
-  Notation hp := (genv_heap gd g extra).
+  Variable hp : heap.
+  Hypothesis Hev : env_view hp gd g extra.
   Hypothesis Hdef : find_klass g n_TypedPyDefaults = None.
 
   (* base_info without the final test that no **kwargs is left over *)
@@ -1257,7 +1280,7 @@ Section BaseInfo.
   Proof.
     intro Hb. unfold base_ok in Hb. destruct (find_klass g b) as [kb|] eqn:Hk; [|discriminate].
     apply andb_true_iff in Hb as [Hb _]. apply andb_true_iff in Hb as [Hb _]. apply eqb_prop in Hb.
-    rewrite (heap_issubclass gd g extra b kb _ Hk). change (s2p "Structure") with n_Structure. rewrite <- Hb.
+    rewrite (ev_subclass _ _ _ _ Hev b kb _ Hk). change (s2p "Structure") with n_Structure. rewrite <- Hb.
     unfold keep. rewrite Hk. unfold dv_is_not, dv_is. rewrite !is_ref_ref. cbn [py_and bind].
     destruct (k_is_struct kb); cbn [bind andb]; [|reflexivity]. destruct (pystr_eqb b n_Structure); reflexivity.
   Qed.
@@ -1331,21 +1354,22 @@ End HeapReads.
 
 (* get_base_info(bases) on the classes of the environment = the model's [base_info]: the same parameters in the
    same order with the same required ones, or the same exception -- whenever the model does not decline *)
-Theorem get_base_info_src so X gd g extra bases r :
+Theorem get_base_info_gen so X hp gd g extra bases r :
+  env_view hp gd g extra ->
   bases_ok g extra bases = true ->
   base_info gd g bases [] false = r -> r <> Raise Unmodelled ->
-  DefineSrc.get_base_info so X (genv_heap gd g extra) (PTuple (v_refs bases)) =
+  DefineSrc.get_base_info so X hp (PTuple (v_refs bases)) =
   match r with
   | Ok bp => Ok (PTuple [v_params bp; v_names (bases_required bp)])
   | Raise x => Raise x
   end.
 Proof.
-  intros Hok Hr Hnu. unfold bases_ok in Hok. apply andb_true_iff in Hok as [Hbs Hdef].
+  intros Hev Hok Hr Hnu. unfold bases_ok in Hok. apply andb_true_iff in Hok as [Hbs Hdef].
   apply negb_true_iff in Hdef. assert (Hd : find_klass g n_TypedPyDefaults = None) by (destruct (find_klass g n_TypedPyDefaults); [discriminate|reflexivity]).
   clear Hdef.
   unfold DefineSrc.get_base_info. cbv zeta. rewrite globals_Structure. cbn [bind]. rewrite deref_tuple. cbn [dv_iter bind].
   rewrite (comp_refs _ (keep g)).
-  2:{ intros b Hb. cbn [bind]. apply select_base. rewrite forallb_forall in Hbs. apply Hbs. exact Hb. }
+  2:{ intros b Hb. cbn [bind]. apply (select_base gd g extra hp Hev). rewrite forallb_forall in Hbs. apply Hbs. exact Hb. }
   cbn [bind]. rewrite deref_list. cbn [dv_iter bind].
   match goal with |- context [@dv_foldM ?S ?F] => set (OUT := F) end.
   assert (Hloop : forall bs, (forall b, In b bs -> base_ok g extra b = true /\ keep g b = true) ->
@@ -1367,7 +1391,7 @@ Proof.
       apply andb_true_iff in Hbok as [Hbok Hex]. apply andb_true_iff in Hbok as [_ Hnk]. apply negb_true_iff in Hnk.
       cbn [v_refs map]. fold (v_refs t). unfold dv_foldM at 1 2. cbn [py_foldM]. fold (@dv_foldM (pyval * pyval)).
       unfold OUT at 1 3. cbv beta iota. cbn [bind].
-      rewrite (heap_signature gd g extra b kb Hk). cbn [bind]. rewrite sig_parameters. cbn [bind].
+      rewrite (ev_signature _ _ _ _ Hev b kb Hk). cbn [bind]. rewrite sig_parameters. cbn [bind].
       rewrite deref_dict, items_skeys. cbn [bind]. rewrite deref_view, iter_items_view. cbn [bind].
       rewrite app_assoc, sig_items_params, map_app, foldM_app.
       match goal with |- context [@dv_foldM _ ?F2 (map v_item (params_al _))] => set (IN := F2) end.
@@ -1395,11 +1419,11 @@ Proof.
       { unfold sig_params. rewrite map_app, !map_map. cbn [fst]. rewrite !map_id. intro Hin. apply str_in_In in Hin. congruence. }
       destruct (inner_params IN Hparam (sig_params kb) acc kw D Hrep Hnk') as [D1 [Hr1 Hf1]]. rewrite Hf1. cbn [bind].
       destruct (inner_kw IN Hkwargs (k_sig_kwargs kb) _ _ _ Hr1) as [D2 [Hr2 Hf2]]. rewrite Hf2. cbn [bind]. cbv beta iota.
-      rewrite (heap_class_dict gd g extra b kb Hk), (heap_addl_default gd g extra Hd). cbn [bind]. rewrite !deref_dict.
+      rewrite (ev_class_dict _ _ _ _ Hev b kb Hk), (ev_addl_default _ _ _ _ Hev Hd). cbn [bind]. rewrite !deref_dict.
       rewrite (class_dict_old kb (extra b) _ Hex). cbn [bind].
       rewrite ?deref_dict. rewrite (class_dict_addl kb (extra b) _ Hex). cbn [bind].
       set (acc' := merge_params acc (sig_params kb)) in *. set (kw' := kw || k_sig_kwargs kb) in *.
-      replace (deref (genv_heap gd g extra) match k_additional kb with Some x => PBool x | None => PBool (gd_additional_default gd) end)
+      replace (deref hp match k_additional kb with Some x => PBool x | None => PBool (gd_additional_default gd) end)
         with (PBool (match k_additional kb with Some x => x | None => gd_additional_default gd end))
         by (destruct (k_additional kb); reflexivity).
       destruct (match k_additional kb with Some x => x | None => gd_additional_default gd end); cbn [py_truthy py_and bind].
@@ -1742,7 +1766,9 @@ Section ApplyDefault.
   Variable e : env.
   Variable so : set_order.
   Variable X : ext_oracle.
-  Variable base : heap.
+  Variable mobj : pystr -> pystr.               (* the object that is member n of the class body *)
+  Variable VM : members -> heap.                (* the heap in which the member objects are as [ms] says *)
+  Variable h0 : heap.                           (* the heap the function is called in *)
   Variable s : classstmt.                       (* its _required / _optional *)
   Variable defs : list (pystr * defval).        (* the `= value` of the annotated fields: cls_dict["_defaults"] *)
   Variable ents : list (pystr * pyval).         (* the class dict *)
@@ -1777,16 +1803,21 @@ Section ApplyDefault.
   Hypothesis Hnorm : defaults_normal pre = true.
   Hypothesis Hmem : forallb member_ok pre = true.
   Hypothesis Hdefs : forallb (fun nd => eqd_plain (snd nd)) defs = true.
-  Hypothesis Hbase : forall n, base (fobj n) n__default = None.
+  Hypothesis HVM_default : forall ms n,
+    VM ms (mobj n) n__default =
+    match alist_get ms n with Some (MField fo) => Some (default_attr (fo_default fo)) | _ => None end.
+  Hypothesis HVM_set : forall ms n fo fo', alist_get ms n = Some (MField fo) ->
+    heap_eq (heap_set (VM ms) (mobj n) n__default (default_attr (fo_default fo'))) (VM (alist_set ms n (MField fo'))).
+  Hypothesis Hh0 : heap_eq h0 (VM pre).
   (* the class dict holds the member objects, _required and _optional as the statement gives them *)
-  Hypothesis Hent : forall n, In n (map fst pre) -> alist_get ents n = Some (fld_ref n).
+  Hypothesis Hent : forall n, In n (map fst pre) -> alist_get ents n = Some (ref (mobj n)).
   Hypothesis Hreq : alist_get ents (s2p "_required") = option_map v_names (s_required s).
   Hypothesis Hopt : alist_get ents (s2p "_optional") = option_map v_names (s_optional s).
   (* Field._try_default_value(v): the field validates v (Fields/SetChain.v [vset]) and changes nothing else *)
   Hypothesis HX : forall hh n fo v, alist_get pre n = Some (MField fo) ->
-    X (s2p "._try_default_value") hh [fld_ref n; v] =
+    X (s2p "._try_default_value") hh [ref (mobj n); v] =
     match vset re_match e (fo_field fo) v with
-    | Ok _ => Ok (hh, PNone, [fld_ref n; v])
+    | Ok _ => Ok (hh, PNone, [ref (mobj n); v])
     | Raise x => Raise x
     end.
 
@@ -1852,11 +1883,11 @@ Section ApplyDefault.
   Qed.
 
   Lemma getattr_def_fld h n a d :
-    dv_getattr_def h (fld_ref n) a d = Ok (match h (fobj n) a with Some v => v | None => d end).
-  Proof. unfold fld_ref, ref. cbn [dv_getattr_def obj_getattr_def]. rewrite pystr_eqb_refl. reflexivity. Qed.
+    dv_getattr_def h (ref (mobj n)) a d = Ok (match h (mobj n) a with Some v => v | None => d end).
+  Proof. unfold ref. cbn [dv_getattr_def obj_getattr_def]. rewrite pystr_eqb_refl. reflexivity. Qed.
 
-  Lemma setattr_fld h n a v : dv_setattr h (fld_ref n) a v = Ok (heap_set h (fobj n) a v).
-  Proof. unfold fld_ref, ref. cbn [dv_setattr]. rewrite pystr_eqb_refl. reflexivity. Qed.
+  Lemma setattr_fld h n a v : dv_setattr h (ref (mobj n)) a v = Ok (heap_set h (mobj n) a v).
+  Proof. unfold ref. cbn [dv_setattr]. rewrite pystr_eqb_refl. reflexivity. Qed.
 
   (* what the loop knows about the member objects while it runs *)
   Definition good (n : pystr) (m : member) : Prop :=
@@ -1884,24 +1915,24 @@ Section ApplyDefault.
     - intros n Hn Hg. apply alist_get_None_notin in Hg. contradiction.
   Qed.
 
-  Theorem apply_default_src :
+  Theorem apply_default_gen :
     match mapM apply_member pre with
     | Ok own =>
-        exists h' req, Permutation req (own_required s own) /\ heap_eq h' (members_heap base own) /\
-          DefineSrc.apply_default_and_update_required so X (members_heap base pre) (PDict (skeys ents)) v_defs
+        exists h' req, Permutation req (own_required s own) /\ heap_eq h' (VM own) /\
+          DefineSrc.apply_default_and_update_required so X (h0) (PDict (skeys ents)) v_defs
                                                        (v_names (map fst pre)) =
           Ok (h', PNone, PDict (skeys (alist_set ents (s2p "_required") (v_names req))))
     | Raise x =>
-        DefineSrc.apply_default_and_update_required so X (members_heap base pre) (PDict (skeys ents)) v_defs
+        DefineSrc.apply_default_and_update_required so X (h0) (PDict (skeys ents)) v_defs
                                                      (v_names (map fst pre)) = Raise x
     end.
   Proof.
     unfold DefineSrc.apply_default_and_update_required. cbv zeta.
     rewrite !dict_get_skeys_def, Hreq, Hopt. cbn [bind].
-    assert (Er : dv_set_of so (deref (members_heap base pre) match option_map v_names (s_required s) with Some v => v | None => PList [] end)
+    assert (Er : dv_set_of so (deref (h0) match option_map v_names (s_required s) with Some v => v | None => PList [] end)
                  = Ok (PSet false (v_strs (dedup_str (opt_list (s_required s)))))).
     { destruct (s_required s) as [l|]; cbn [option_map opt_list]; [unfold v_names; rewrite deref_list; apply set_of_list|reflexivity]. }
-    assert (Eo : dv_set_of so (deref (members_heap base pre) match option_map v_names (s_optional s) with Some v => v | None => PList [] end)
+    assert (Eo : dv_set_of so (deref (h0) match option_map v_names (s_optional s) with Some v => v | None => PList [] end)
                  = Ok (PSet false (v_strs (dedup_str (opt_list (s_optional s)))))).
     { destruct (s_optional s) as [l|]; cbn [option_map opt_list]; [unfold v_names; rewrite deref_list; apply set_of_list|reflexivity]. }
     rewrite Er, Eo. cbn [bind]. rewrite in_skeys. cbn [bind].
@@ -1912,10 +1943,10 @@ Section ApplyDefault.
     set (R0 := dedup_str (opt_list (s_required s))).
     set (OPT := dedup_str (opt_list (s_optional s))).
     assert (Hloop : forall ns, (forall n, In n ns -> In n (map fst pre)) ->
-              forall ms hcur r, heap_eq hcur (members_heap base ms) -> inv ms ->
+              forall ms hcur r, heap_eq hcur (VM ms) -> inv ms ->
               match apply_all2 ms r ns with
               | Ok (own, r') =>
-                  exists h', heap_eq h' (members_heap base own) /\
+                  exists h', heap_eq h' (VM own) /\
                     dv_foldM BODY (v_strs ns) (hcur, PSet false (v_strs r)) = Ok (h', PSet false (v_strs r'))
               | Raise x => dv_foldM BODY (v_strs ns) (hcur, PSet false (v_strs r)) = Raise x
               end).
@@ -1930,16 +1961,14 @@ Section ApplyDefault.
         (* the current object *)
         unfold apply_step. destruct (alist_get ms n) as [m|] eqn:Egm; [|exfalso; exact (Hpres n Hn Egm)].
         pose proof (Hgood n m Egm) as Hgm.
-        assert (Ehd : hcur (fobj n) n__default = match m with MField fo => Some (default_attr (fo_default fo)) | MConst _ => None end).
-        { rewrite Heq. unfold members_heap, fobj. rewrite strip_prefix_app, Egm. destruct m as [fo|v]; cbn [member_attr].
-          - rewrite pystr_eqb_refl. reflexivity.
-          - apply Hbase. }
+        assert (Ehd : hcur (mobj n) n__default = match m with MField fo => Some (default_attr (fo_default fo)) | MConst _ => None end).
+        { rewrite Heq, HVM_default, Egm. destruct m; reflexivity. }
         change (s2p "_default") with n__default. rewrite Ehd.
         (* the update of the required set, whatever the object has become *)
-        assert (Htail : forall hX m', hX (fobj n) n__default = match m' with MField fo => Some (default_attr (fo_default fo)) | MConst _ => None end ->
+        assert (Htail : forall hX m', hX (mobj n) n__default = match m' with MField fo => Some (default_attr (fo_default fo)) | MConst _ => None end ->
                   good n m' ->
                   (v_required_fields_41 <-
-                   (c <- (t35 <- dv_getattr_def hX (fld_ref n) n__default PNone;; Ok (py_is_not_none t35));;
+                   (c <- (t35 <- dv_getattr_def hX (ref (mobj n)) n__default PNone;; Ok (py_is_not_none t35));;
                     (if c
                      then v_required_fields_37 <-
                           (c0 <- dv_in (PStr n) (PSet false (v_strs r));;
@@ -2002,13 +2031,13 @@ Section ApplyDefault.
                assert (Edn : default_val d = default_attr (fo_default fo')).
                { subst fo'. cbn [fo_default]. destruct d as [[]|v]; reflexivity. }
                rewrite Hfld. fold fo'. rewrite Edn.
-               assert (Heq' : heap_eq (heap_set hcur (fobj n) n__default (default_attr (fo_default fo'))) (members_heap base (alist_set ms n (MField fo')))).
-               { intros o a. rewrite <- (members_heap_set base ms n fo fo' Egm o a). unfold heap_set. rewrite Heq. reflexivity. }
+               assert (Heq' : heap_eq (heap_set hcur (mobj n) n__default (default_attr (fo_default fo'))) (VM (alist_set ms n (MField fo')))).
+               { intros o a. rewrite <- (HVM_set ms n fo fo' Egm o a). unfold heap_set. rewrite Heq. reflexivity. }
                assert (Hg' : good n (MField fo')).
                { cbn [good]. split; [exists fo0; split; [exact Hpre0|exact Hfld]|]. subst fo'. cbn [fo_default].
                  destruct d as [v|v]; cbn [eqd_plain] in Hpl; [|split; [exact I|reflexivity]].
                  destruct v; cbn [norm_default lit_ok]; try (split; [exact I|reflexivity]). discriminate. }
-               assert (EhX : heap_set hcur (fobj n) n__default (default_attr (fo_default fo')) (fobj n) n__default = Some (default_attr (fo_default fo'))).
+               assert (EhX : heap_set hcur (mobj n) n__default (default_attr (fo_default fo')) (mobj n) n__default = Some (default_attr (fo_default fo'))).
                { unfold heap_set. rewrite !pystr_eqb_refl. reflexivity. }
                use_tail (Htail _ (MField fo') EhX Hg'). cbn [bind].
                apply (IH Ht _ _ _ Heq').
@@ -2028,7 +2057,7 @@ Section ApplyDefault.
           cbn [good] in Hgm. rewrite Hgm. cbn [py_and bind]. rewrite Egm.
           use_tail (Htail hcur (MConst cv) Ehd Hgm). cbn [bind].
           apply (IH Ht ms hcur _ Heq (conj Hgood Hpres)). }
-    specialize (Hloop (map fst pre) (fun n H => H) pre (members_heap base pre) R0 (fun o a => eq_refl) inv_pre).
+    specialize (Hloop (map fst pre) (fun n H => H) pre h0 R0 Hh0 inv_pre).
     pose proof (apply_all2_spec pre [] R0 Hnd) as Hspec. cbn [app] in Hspec. rewrite Hspec in Hloop. clear Hspec.
     destruct (mapM apply_member pre) as [own|x]; cbn [bind] in Hloop.
     - destruct Hloop as [h' [Heq' Hf]]. rewrite Hf. cbn [bind]. cbv beta iota.
@@ -2038,6 +2067,40 @@ Section ApplyDefault.
     - unfold v_names. rewrite deref_list. cbn [dv_iter bind]. fold (v_strs (map fst pre)). rewrite Hloop. reflexivity.
   Qed.
 End ApplyDefault.
+
+(* the same for the heap [members_heap base pre], where member n is the object "field:n" *)
+Theorem apply_default_src (re_match : N -> pystr -> bool) (e : env) (so : set_order) (X : ext_oracle) (base : heap)
+    (s : classstmt) (defs : list (pystr * defval)) (ents : list (pystr * pyval)) (pre : members) :
+  so_ok so -> NoDup (map fst pre) -> defaults_normal pre = true ->
+  forallb (member_ok defs) pre = true -> forallb (fun nd => eqd_plain (snd nd)) defs = true ->
+  (forall n, base (fobj n) n__default = None) ->
+  (forall n, In n (map fst pre) -> alist_get ents n = Some (fld_ref n)) ->
+  alist_get ents (s2p "_required") = option_map v_names (s_required s) ->
+  alist_get ents (s2p "_optional") = option_map v_names (s_optional s) ->
+  (forall hh n fo v, alist_get pre n = Some (MField fo) ->
+     X (s2p "._try_default_value") hh [fld_ref n; v] =
+     match vset re_match e (fo_field fo) v with
+     | Ok _ => Ok (hh, PNone, [fld_ref n; v])
+     | Raise x => Raise x
+     end) ->
+  match mapM (apply_member re_match e defs) pre with
+  | Ok own =>
+      exists h' req, Permutation req (own_required s own) /\ heap_eq h' (members_heap base own) /\
+        DefineSrc.apply_default_and_update_required so X (members_heap base pre) (PDict (skeys ents)) (v_defs defs)
+                                                     (v_names (map fst pre)) =
+        Ok (h', PNone, PDict (skeys (alist_set ents (s2p "_required") (v_names req))))
+  | Raise x =>
+      DefineSrc.apply_default_and_update_required so X (members_heap base pre) (PDict (skeys ents)) (v_defs defs)
+                                                   (v_names (map fst pre)) = Raise x
+  end.
+Proof.
+  intros Hso Hnd Hnorm Hmem Hdefs Hbase Hent Hreq Hopt HX.
+  apply (apply_default_gen re_match e so X fobj (members_heap base) (members_heap base pre) s defs ents pre); try assumption.
+  - intros ms n. unfold members_heap, fobj. rewrite strip_prefix_app.
+    destruct (alist_get ms n) as [[fo|v]|]; cbn [member_attr]; [rewrite pystr_eqb_refl; reflexivity|apply Hbase|apply Hbase].
+  - intros ms n fo fo' Hg. apply (members_heap_set base ms n fo fo' Hg).
+  - intros o a. reflexivity.
+Qed.
 
 (* The class body first builds every Field object ([field_init], the Field constructors run while the body is
    executed), then StructMeta.__new__ applies the `= value` defaults.  When the constructors all succeed, the
@@ -2195,16 +2258,17 @@ Qed.
 Definition v_fields_of_mro (g : genv) (mro : list pystr) : list (pystr * pyval) :=
   mro_fold (fun c nm => ref (member_obj c (fst nm))) g mro.
 
-Theorem get_all_fields_by_name_src so X gd g extra c kc :
+Theorem get_all_fields_by_name_gen so X hp gd g extra c kc :
+  env_view hp gd g extra ->
   find_klass g c = Some kc -> mro_plain g (k_mro kc) = true ->
-  DefineSrc.get_all_fields_by_name so X (genv_heap gd g extra) (ref c) =
+  DefineSrc.get_all_fields_by_name so X hp (ref c) =
   Ok (PDict (skeys (v_fields_of_mro g (k_mro kc)))).
 Proof.
-  intros Hk Hpl. unfold DefineSrc.get_all_fields_by_name. cbv zeta.
-  rewrite (heap_mro gd g extra c kc Hk). cbn [bind]. rewrite deref_list. cbn [dv_iter bind].
+  intros Hev Hk Hpl. unfold DefineSrc.get_all_fields_by_name. cbv zeta.
+  rewrite (ev_mro _ _ _ _ Hev c kc Hk). cbn [bind]. rewrite deref_list. cbn [dv_iter bind].
   set (isstruct := fun x => match find_klass g x with Some k => k_is_struct k | None => false end).
   rewrite (comp_refs _ isstruct).
-  2:{ intros b _. rewrite heap_isinstance_struct. cbn [bind]. unfold isstruct. destruct (find_klass g b) as [k|]; [destruct (k_is_struct k)|]; reflexivity. }
+  2:{ intros b _. rewrite (ev_struct _ _ _ _ Hev). cbn [bind]. unfold isstruct. destruct (find_klass g b) as [k|]; [destruct (k_is_struct k)|]; reflexivity. }
   cbn [bind]. rewrite deref_list. cbn [dv_reversed bind]. rewrite deref_list. cbn [dv_iter bind].
   unfold v_refs. rewrite <- map_rev. fold (v_refs (rev (filter isstruct (k_mro kc)))). rewrite <- filter_rev.
   unfold v_fields_of_mro, mro_fold.
@@ -2225,22 +2289,57 @@ Proof.
       cbn [map]. unfold alist_merge at 1. cbn [fold_left]. apply IH. exact Ht. }
   replace (own_of g x) with (k_own kx) by (unfold own_of; rewrite Hkx, Es; reflexivity).
   cbn [v_refs map]. fold (v_refs (filter isstruct t)). unfold dv_foldM at 1. cbn [py_foldM]. fold (@dv_foldM pyval).
-  cbn [bind]. rewrite heap_isinstance_struct, Hkx, Es. cbn [bind].
+  cbn [bind]. rewrite (ev_struct _ _ _ _ Hev), Hkx, Es. cbn [bind].
   unfold own_plain in Hpl'. apply andb_true_iff in Hpl' as [Hnames Hnd]. apply negb_true_iff in Hnd. apply has_dup_false_NoDup in Hnd.
-  assert (Ef : dv_getattr_def (genv_heap gd g extra) (ref x) (s2p "_fields") (PList []) = Ok (v_names (map fst (k_own kx)))).
-  { unfold ref. cbn [dv_getattr_def obj_getattr_def]. rewrite pystr_eqb_refl. unfold genv_heap. rewrite Hkx. reflexivity. }
+  pose proof (ev_fields _ _ _ _ Hev x kx Hkx) as Ef.
   rewrite Ef. cbn [bind]. unfold v_names at 1. rewrite deref_list. cbn [dv_iter bind]. fold (v_strs (map fst (k_own kx))).
   rewrite (comp_strs _ (fun _ => true) (fun n => v_item (n, ref (member_obj x n)))).
-  2:{ intros n Hn. unfold dv_getattr_dyn. unfold ref at 1. cbn [dv_getattr obj_getattr]. rewrite pystr_eqb_refl.
-      unfold genv_heap. rewrite Hkx. rewrite forallb_forall in Hnames. specialize (Hnames n Hn).
+  2:{ intros n Hn. rewrite forallb_forall in Hnames. specialize (Hnames n Hn).
       apply andb_true_iff in Hnames as [Hp Hs]. apply negb_true_iff in Hp, Hs.
-      rewrite (class_attr_member kx (extra x) n Hp Hs) by (apply alist_has_In; exact Hn).
-      rewrite (find_klass_name g x kx Hkx). reflexivity. }
+      rewrite (ev_member _ _ _ _ Hev x kx n Hkx Hn Hp Hs). reflexivity. }
   cbn [bind]. rewrite (filter_all _ (map fst (k_own kx))) by (apply forallb_forall; reflexivity).
   rewrite map_map. rewrite <- (map_map (fun nm : pystr * member => (fst nm, ref (member_obj x (fst nm)))) v_item).
   rewrite dict_of_items by (rewrite map_map; cbn [fst]; exact Hnd). cbn [bind].
   rewrite dict_update_skeys. cbn [bind]. apply IH. exact Ht.
 Qed.
+
+(* the heap of a class environment answers as [env_view] says *)
+Lemma genv_env_view gd g extra : env_view (genv_heap gd g extra) gd g extra.
+Proof.
+  constructor.
+  - apply heap_isinstance_struct.
+  - apply heap_isinstance_fieldmeta.
+  - apply heap_issubclass.
+  - apply heap_signature.
+  - apply heap_class_dict.
+  - apply heap_mro.
+  - apply heap_addl_default.
+  - intros x kx Hkx. unfold ref. cbn [dv_getattr_def obj_getattr_def]. rewrite pystr_eqb_refl. unfold genv_heap. rewrite Hkx. reflexivity.
+  - intros x kx n Hkx Hn Hp Hs. unfold dv_getattr_dyn. unfold ref at 1. cbn [dv_getattr obj_getattr]. rewrite pystr_eqb_refl.
+    unfold genv_heap. rewrite Hkx. rewrite (class_attr_member kx (extra x) n Hp Hs) by (apply alist_has_In; exact Hn).
+    rewrite (find_klass_name g x kx Hkx). reflexivity.
+Qed.
+
+Theorem check_final_src so X gd g extra name mro_tail :
+  DefineSrc.check_for_final_violations so X (genv_heap gd g extra) (PList (v_refs (name :: mro_tail))) =
+  if final_violation g mro_tail then Raise TypeError else Ok PNone.
+Proof. apply (check_final_gen so X _ gd g extra). apply genv_env_view. Qed.
+
+Theorem get_base_info_src so X gd g extra bases r :
+  bases_ok g extra bases = true ->
+  base_info gd g bases [] false = r -> r <> Raise Unmodelled ->
+  DefineSrc.get_base_info so X (genv_heap gd g extra) (PTuple (v_refs bases)) =
+  match r with
+  | Ok bp => Ok (PTuple [v_params bp; v_names (bases_required bp)])
+  | Raise x => Raise x
+  end.
+Proof. apply (get_base_info_gen so X _ gd g extra). apply genv_env_view. Qed.
+
+Theorem get_all_fields_by_name_src so X gd g extra c kc :
+  find_klass g c = Some kc -> mro_plain g (k_mro kc) = true ->
+  DefineSrc.get_all_fields_by_name so X (genv_heap gd g extra) (ref c) =
+  Ok (PDict (skeys (v_fields_of_mro g (k_mro kc)))).
+Proof. apply (get_all_fields_by_name_gen so X _ gd g extra). apply genv_env_view. Qed.
 
 (* the dict of the source and the model's fields_of_mro have the same names in the same order *)
 Lemma fields_of_mro_names g mro :
